@@ -1,6 +1,7 @@
 (* C12 - the property theorems, nothing else.  Each is closed by [exact] of a lemma proved in Replay/*.v
    and followed by Print Assumptions. *)
-From Icv Require Import Base.Tac Replay.RlBytes Replay.RlModel Replay.RlBytesProofs Replay.RlProofs Replay.RlHistory Replay.RlHistoryProofs Replay.RlObs Replay.RlOracleProofs.
+From Icv Require Import Base.Tac Replay.RlBytes Replay.RlModel Replay.RlBytesProofs Replay.RlProofs Replay.RlHistory Replay.RlHistoryProofs Replay.RlObs Replay.RlOracleProofs
+  Replay.RlSize Replay.RlSizeProofs Replay.RlFixed Replay.RlFixedProofs Replay.RlCompact Replay.RlCompactProofs Replay.RlBoundary Facts.Facts_c12.
 From Coq Require Import Sorting.Sorted.
 Local Open Scope Z_scope.
 
@@ -181,6 +182,206 @@ Theorem C12_oracle_accepts_model_recv : forall id ts st e,
   rl_get_ep (rl_eps st) id = Some e -> rl_or_recv (rl_ep_rpos e) ts (fst (rl_recv id ts st)) = true.
 Proof. exact rl_oracle_accepts_recv. Qed.
 Print Assumptions C12_oracle_accepts_model_recv.
+
+(* ---------------------------------------------------------------- sizes ---------------------------------------------------------------- *)
+(* The size limits of the CURRENT source, regenerated on every run (tools/facts_c12.py): the netstring Stream reader rejects a
+   length prefix of more than 9 digits and needs the colon within the first 17 bytes, ReplayLog passes no maxMessageLength -
+   with these the reader with limits IS the reader the other theorems are about.  Stops checking when a fact changes. *)
+Theorem C12_reader_limits_of_source :
+  rl_src_recognised = true /\ rl_src_ns_digits = 9 /\ rl_src_colon_window = 16 /\ rl_src_replay_maxlen = None /\
+  forall buf, rl_parse_log_lim rl_src_ns_digits rl_src_replay_maxlen buf = rl_parse_log buf.
+Proof. exact rl_reader_limits_of_source. Qed.
+Print Assumptions C12_reader_limits_of_source.
+
+(* Every entry PersistMessage can write, ReplayLog can read: over the two regenerated limits (what PersistMessage is willing
+   to write, what ReplayLog lets the reader accept) an entry below the digit bound of the frame format is returned by the
+   reading loop, which then goes on with whatever follows.  No longer checks when one side gets a limit the other lacks. *)
+Theorem C12_persist_readable : forall e rest,
+  0 <= rl_e_ts e < 10 ^ 15 ->
+  rl_frame_written rl_src_persist_maxlen (Z.of_nat (length (rl_enc_entry e))) = true ->
+  Z.of_nat (length (rl_enc_entry e)) < 10 ^ rl_src_ns_digits ->
+  rl_parse_log_lim rl_src_ns_digits rl_src_replay_maxlen (rl_frame (rl_enc_entry e) ++ rest) =
+    e :: rl_parse_log_lim rl_src_ns_digits rl_src_replay_maxlen rest.
+Proof. exact rl_persist_readable. Qed.
+Print Assumptions C12_persist_readable.
+
+(* ... by the general criterion: the limits agree iff the read limit is absent, or at least one more than the write limit,
+   or beyond the digit bound *)
+Theorem C12_limits_agree : forall digits wmax rmax len,
+  rl_limits_agree_b digits wmax rmax = true -> 0 <= len -> rl_frame_written wmax len = true -> len < 10 ^ digits ->
+  rl_frame_accepts digits rmax len = true.
+Proof. exact rl_limits_agree. Qed.
+Print Assumptions C12_limits_agree.
+
+(* For ANY limits of the reader: the reading loop returns the entries of an intact file up to the first one it does not
+   accept and nothing after it - an intact entry over a limit hides itself AND every later entry of its file. *)
+Theorem C12_read_limit_hides : forall digits maxlen es e es',
+  1 <= digits <= 17 -> Forall (rl_entry_fits digits maxlen) es ->
+  Z.of_nat (length (rl_enc_entry e)) < 10 ^ 17 ->
+  rl_frame_accepts digits maxlen (Z.of_nat (length (rl_enc_entry e))) = false ->
+  rl_parse_log_lim digits maxlen (rl_enc_log (es ++ e :: es')) = es.
+Proof. exact rl_parse_lim_stop. Qed.
+Print Assumptions C12_read_limit_hides.
+
+Theorem C12_read_limit_keeps : forall digits maxlen es junk,
+  1 <= digits <= 17 -> Forall (rl_entry_fits digits maxlen) es ->
+  rl_parse_log_lim digits maxlen (rl_enc_log es ++ junk) = es ++ rl_parse_log_lim digits maxlen junk.
+Proof. exact rl_parse_lim_prefix. Qed.
+Print Assumptions C12_read_limit_keeps.
+
+(* C12_replayed with its premises spelled out: the clock premises (monotone, advancing before every relay, below 10^15 s) and
+   the ONE size premise - every relayed event has an entry that the reader ReplayLog uses accepts (rl_hsized over the
+   regenerated limits; today: shorter than 10^9 bytes).  By C12_read_limit_hides the size premise cannot be dropped. *)
+Theorem C12_replayed_sized : forall t now0 eps h now ep,
+  0 < now0 -> rl_hclocked now0 h -> rl_hsized rl_src_ns_digits rl_src_replay_maxlen h -> rl_ep_dur ep <> 0 ->
+  let st := rl_hrun t h (rl_init_st now0 eps) in
+  let r := rl_replay t now ep st in
+  rl_msgs (rl_rr_out r) = map rl_e_msg (filter (rl_sel t (rl_ep_zone ep) (rl_ep_pos ep)) (rl_log_entries st)) /\ rl_rr_done r = true.
+Proof. exact rl_replayed_sized. Qed.
+Print Assumptions C12_replayed_sized.
+
+(* Large payloads in the correspondence run are run-length encoded: the encoded entry expands to the bytes PersistMessage
+   writes and its computed length is their number *)
+Theorem C12_run_length_entries : forall x,
+  rl_x_expand (rl_xe_enc x) = rl_enc_entry (rl_xe_entry x) /\
+  rl_xe_len x = Z.of_nat (length (rl_enc_entry (rl_xe_entry x))) /\
+  rl_frame_len (rl_xe_len x) = Z.of_nat (length (rl_frame (rl_enc_entry (rl_xe_entry x)))).
+Proof. exact rl_run_length_entries. Qed.
+Print Assumptions C12_run_length_entries.
+
+(* The record-level model (RlCompact.v: files as lists of entries with run-length encoded messages - what the correspondence
+   run executes for scripts with megabyte payloads) refines the byte-level model: every operation commutes with the map to the
+   bytes of the directory, for entries of ANY size ... *)
+Theorem C12_record_model_ops : forall t now s,
+  (forall e, rl_x_conc (rl_x_persist now e s) = rl_persist now (rl_xe_entry e) (rl_x_conc s)) /\
+  rl_x_conc (rl_x_rotate_cycle now s) = rl_rotate_cycle now (rl_x_conc s) /\
+  (forall clean, rl_x_conc (rl_x_restart clean now s) = rl_restart clean now (rl_x_conc s)) /\
+  rl_x_conc (rl_x_cleanup t now s) = rl_cleanup t now (rl_x_conc s) /\
+  (forall id p, rl_x_conc (rl_x_ack id p s) = rl_ack id p (rl_x_conc s)) /\
+  (forall id ts, fst (rl_x_recv id ts s) = fst (rl_recv id ts (rl_x_conc s)) /\ rl_x_conc (snd (rl_x_recv id ts s)) = snd (rl_recv id ts (rl_x_conc s))) /\
+  (forall sec m, let rx := rl_x_relay t now sec m s in
+                 let rb := rl_relay t now sec (rl_x_expand m) (rl_x_conc s) in
+                 rl_xrl_logged rx = rl_rl_logged rb /\ rl_xrl_live rx = rl_rl_live rb /\ rl_x_conc (rl_xrl_st rx) = rl_rl_st rb).
+Proof. exact rl_x_refines_ops. Qed.
+Print Assumptions C12_record_model_ops.
+
+(* ... and ReplayLog does under the one size premise: every entry of the directory is one the reader returns
+   (timestamp below 10^15, encoding shorter than 10^9 bytes).  Then the byte-level ReplayLog emits the expansion of what the
+   record-level one emits, and the decodable entries of the directory are exactly the recorded ones. *)
+Theorem C12_record_model_replay : forall t now ep st, rl_x_ok st ->
+  let rx := rl_x_replay false t now ep st in
+  let rb := rl_replay t now ep (rl_x_conc st) in
+  rl_rr_out rb = rl_x_out_bytes (rl_xrr_out rx) /\ rl_rr_done rb = rl_xrr_done rx /\ rl_rr_st rb = rl_x_conc (rl_xrr_st rx).
+Proof. exact rl_x_conc_replay. Qed.
+Print Assumptions C12_record_model_replay.
+
+(* the same for every form of ReplayLog (with / without the SetLogPosition emission, with / without the timestamp bound),
+   in particular for the one the source has now, which is what the run executes (rl_replay_src / rl_x_replay_src) *)
+Theorem C12_record_model_replay_forms : forall emit bound t now ep st, rl_x_ok st ->
+  let rx := rl_x_replay_fe emit bound t now ep st in
+  let rb := rl_replay_fe emit bound t now ep (rl_x_conc st) in
+  rl_rr_out rb = rl_x_out_bytes (rl_xrr_out rx) /\ rl_rr_done rb = rl_xrr_done rx /\ rl_rr_st rb = rl_x_conc (rl_xrr_st rx).
+Proof. exact rl_x_conc_replay_fe. Qed.
+Print Assumptions C12_record_model_replay_forms.
+
+Theorem C12_record_model_entries : forall st, rl_x_ok st -> rl_log_entries (rl_x_conc st) = map rl_xe_entry (rl_x_log_entries st).
+Proof. exact rl_x_conc_entries. Qed.
+Print Assumptions C12_record_model_entries.
+
+(* ------------------------------------------ the premises about timestamps, at their boundaries ------------------------------------------ *)
+(* Without "strictly increasing timestamps": what ReplayLog sends is the dynamic rule of its loop - an accessible entry is sent
+   iff its timestamp is above the confirmed position and above the timestamp of every entry sent before it in this replay.
+   Only premise on the log: every file is named later than its entries.  (C12_replayed_general is the special case.) *)
+Theorem C12_replayed_dyn : forall t now ep st,
+  rl_ep_dur ep <> 0 -> rl_name_bound (rl_files st) ->
+  let r := rl_replay t now ep st in
+  rl_msgs (rl_rr_out r) = map rl_e_msg (rl_dyn t (rl_ep_zone ep) (rl_ep_pos ep) (rl_log_entries st)) /\ rl_rr_done r = true.
+Proof. exact rl_replayed_dyn. Qed.
+Print Assumptions C12_replayed_dyn.
+
+(* Recorded finding (known_findings: nonincreasing-timestamps-not-replayed) on the model, as histories from the start of the sender:
+   two relays within one clock reading, two relays with the clock stepped back in between - both events are persisted and owed,
+   the second is not replayed; with a rotation after the step back the file is named earlier than an entry in it and a peer
+   positioned in between is not shown that entry.  C12_replayed excludes these through rl_hclocked (the clock advances before
+   every relay). *)
+Theorem C12_clock_refuted :
+  (let st := rl_hrun rl_w_topo rl_w_hist_equal (rl_init_st 5 [rl_w_ep]) in
+   map rl_e_msg (rl_log_entries st) = [rl_mk_msg 1 10; rl_mk_msg 2 10] /\
+   map rl_e_msg (filter (rl_sel rl_w_topo 1 0) (rl_log_entries st)) = [rl_mk_msg 1 10; rl_mk_msg 2 10] /\
+   rl_msgs (rl_rr_out (rl_replay rl_w_topo 40 rl_w_ep st)) = [rl_mk_msg 1 10]) /\
+  (let st := rl_hrun rl_w_topo rl_w_hist_back (rl_init_st 5 [rl_w_ep]) in
+   map rl_e_msg (rl_log_entries st) = [rl_mk_msg 1 20; rl_mk_msg 2 10] /\
+   rl_msgs (rl_rr_out (rl_replay rl_w_topo 40 rl_w_ep st)) = [rl_mk_msg 1 20]) /\
+  (let st := rl_hrun rl_w_topo rl_w_hist_back_rot (rl_init_st 5 [rl_w_ep]) in
+   map fst (rl_files st) = [11] /\ map rl_e_msg (rl_log_entries st) = [rl_mk_msg 1 20; rl_mk_msg 2 10; rl_mk_msg 3 12] /\
+   rl_msgs (rl_rr_out (rl_replay rl_w_topo 40 (rl_ep_set_pos 15 rl_w_ep) st)) = []).
+Proof. exact rl_clock_refuted. Qed.
+Print Assumptions C12_clock_refuted.
+
+(* "Never overwrite": in every reachable state a rotation - carried out, or silently denied because a file of that name exists
+   (second rotation within the same second) - keeps every entry and every file; a denied one changes nothing but the open time.
+   The form of RotateLogFile this transcribes is a regenerated fact. *)
+Theorem C12_rotate_keeps : forall c now st, rl_hinv c st ->
+  rl_log_entries (rl_rotate_cycle now st) = rl_log_entries st /\
+  (forall f, In f (rl_files st) -> In f (rl_files (rl_rotate_cycle now st))) /\
+  (rl_has_file (rl_files st) ((if rl_lmt st =? 0 then now else rl_lmt st) + 1) = true -> rl_files (rl_rotate_cycle now st) = rl_files st /\ rl_cur (rl_rotate_cycle now st) = rl_cur st).
+Proof. exact rl_rotate_keeps. Qed.
+Print Assumptions C12_rotate_keeps.
+
+Theorem C12_source_forms : f_rl_rotate_never_overwrites = Some true /\ f_rl_replay_skip_le = Some true.
+Proof. exact rl_src_rotate_form. Qed.
+Print Assumptions C12_source_forms.
+
+(* ------------------------------------------ the two recorded findings: repaired forms ------------------------------------------ *)
+(* ReplayLog as a function of two regenerated facts: emit (log::SetLogPosition sent during the replay: true today; false with
+   repo_patches/c12-replaylog-no-setlogposition.diff) and bound (an entry with timestamp >= the name bound of its file is
+   treated as corruption: false today; true with repo_patches/c12-replaylog-bound-timestamp.diff).  The forms are recognised,
+   and (true, false) is the ReplayLog all other theorems are about. *)
+Theorem C12_replay_forms_recognised : rl_src_forms_recognised = true.
+Proof. exact rl_replay_forms_recognised. Qed.
+Print Assumptions C12_replay_forms_recognised.
+
+Theorem C12_replay_pinned_form : forall t now ep st, rl_replay_fe true false t now ep st = rl_replay t now ep st.
+Proof. exact rl_replay_fe_pinned. Qed.
+Print Assumptions C12_replay_pinned_form.
+
+(* C12_replayed for EVERY form, in every reachable state (clock not behind the state's): the same messages - exactly the owed
+   entries in order -, the last pass reached, the same state afterwards: neither repair changes what an undamaged log replays *)
+Theorem C12_replayed_forms : forall emit bound t now ep c st,
+  rl_hinv c st -> c <= now -> rl_ep_dur ep <> 0 ->
+  let r := rl_replay_fe emit bound t now ep st in
+  rl_msgs (rl_rr_out r) = map rl_e_msg (filter (rl_sel t (rl_ep_zone ep) (rl_ep_pos ep)) (rl_log_entries st)) /\
+  rl_rr_done r = true /\ rl_rr_st r = rl_rr_st (rl_replay t now ep st).
+Proof. exact rl_replayed_forms. Qed.
+Print Assumptions C12_replayed_forms.
+
+(* replay-setlogposition-acks-wrong-log, repaired (emit = false): whatever the peer's ReplayLog sends - same code, ANY state
+   of the peer - handling it leaves our state as it was, and our replay then sends everything owed *)
+Theorem C12_setpos_fixed : forall bound t now ep c st tp nowp epp stp,
+  rl_hinv c st -> c <= now -> rl_ep_dur ep <> 0 ->
+  let emitted_by_peer := rl_rr_out (rl_replay_fe false bound tp nowp epp stp) in
+  let st' := rl_feed_acks (rl_ep_id ep) emitted_by_peer st in
+  st' = st /\
+  rl_msgs (rl_rr_out (rl_replay_fe false bound t now ep st')) =
+    map rl_e_msg (filter (rl_sel t (rl_ep_zone ep) (rl_ep_pos ep)) (rl_log_entries st)).
+Proof. exact rl_setpos_fixed. Qed.
+Print Assumptions C12_setpos_fixed.
+
+(* corrupt-timestamp-hides-later-entries, repaired (bound = true), on the witness of C12_corrupt_ts_refuted: the file with the
+   overwritten digit is abandoned at the damaged entry, the entry of the other file is delivered; and in general replaying a
+   file, whatever its bytes, leaves peer_ts below the file's name bound (or where it was) *)
+Theorem C12_corrupt_ts_fixed :
+  let st := rl_w_st (rl_set_byte rl_w_off 57 rl_w_file) in
+  rl_msgs (rl_rr_out (rl_replay_f true rl_w_topo 40 rl_w_ep st)) = [rl_mk_msg 3 30] /\
+  rl_msgs (rl_rr_out (rl_replay_f false rl_w_topo 40 rl_w_ep st)) = [rl_mk_msg 1 10] /\
+  rl_msgs (rl_rr_out (rl_replay_f true rl_w_topo 40 rl_w_ep (rl_w_st rl_w_file))) = [rl_mk_msg 1 10; rl_mk_msg 2 20; rl_mk_msg 3 30].
+Proof. exact rl_corrupt_ts_fixed. Qed.
+Print Assumptions C12_corrupt_ts_fixed.
+
+Theorem C12_bound_limits_peer : forall t tz s f,
+  rl_r_peer (rl_replay_file_f true t tz s f) <= Z.max (rl_r_peer s) (fst f - 1).
+Proof. exact rl_bound_limits_peer. Qed.
+Print Assumptions C12_bound_limits_peer.
 
 (* non-vacuity: a concrete two-file log meets the premises of C12_replayed and entries are owed *)
 Example C12_nonvacuous :
